@@ -15,7 +15,11 @@ set_option linter.unusedVariables false
 namespace Pun.Gen.KS
 open Pun.KS
 
-theorem gen_consts_eq : c1 = Pun.KS.c1 ∧ table = Pun.KS.table ∧ dflt = Pun.KS.dflt := by decide +kernel
+theorem gen_consts_eq : c1 = Pun.KS.c1 ∧ table = Pun.KS.table ∧ dflt = Pun.KS.dflt := by
+  refine ⟨?_, ?_, ?_⟩
+  · norm_num [c1, Pun.KS.c1]
+  · norm_num [table, Pun.KS.table, k010, k005, k0025]
+  · simp [dflt, Pun.KS.dflt]
 
 /-- every row of the extracted table got a bracket and the whole table passes the certificate -/
 def certified : Bool :=
